@@ -11,6 +11,7 @@ package c16
 
 import (
 	"fmt"
+	"github.com/bitcoin-sv/block-headers-service/config"
 	"math/rand"
 	"os"
 	"sort"
@@ -293,12 +294,22 @@ func body(r *ev.Run) {
 	if metricsOn {
 		metrics.EnableMetrics()
 	}
-	st, err := rig.New(rig.Options{Dir: r.Scratch})
+	// every fourth worker process runs with http.use_auth = false (a supported deployment: no token middleware, admin routes
+	// open); what the statement says about answers holds there as well
+	authOff := r.Worker%4 == 2
+	st, err := rig.New(rig.Options{Dir: r.Scratch, Config: func(c *config.AppConfig) {
+		if authOff {
+			c.HTTP.UseAuth = false
+		}
+	}})
 	if err != nil {
 		r.Violate("harness|rig", err.Error(), "", nil)
 		return
 	}
 	defer st.Destroy()
+	if authOff {
+		r.Count("worker_processes_with_authentication_off", 1)
+	}
 	if metricsOn {
 		srv := httpserver.NewHTTPServer(st.Cfg.HTTP, &st.Log)
 		srv.ApplyConfiguration(metrics.Register)
